@@ -88,6 +88,9 @@ func (fr *frame) call(c *ssa.CallCommon, ins ssa.Instruction, desc string) Val {
 			bindings = append(bindings, fr.val(b))
 		}
 	}
+	if callee != nil && callee.Name() == "StructDesc" && callee.Pkg != nil && strings.HasSuffix(callee.Pkg.Pkg.Path(), "/internal/coq") && len(args) == 1 {
+		fr.mentionHookNamed(c.Args[0], "StructDesc", args[0], ins.Pos())
+	}
 	if callee == nil {
 		vc.note("call through function value treated as unknown: " + fr.fn.String())
 		return fr.unknownCall("funcvalue", resT, true)
@@ -232,6 +235,7 @@ func (fr *frame) inline(callee *ssa.Function, args, bindings []Val, resT types.T
 	sub := vc.newFrame(callee, fr.depth+1)
 	sub.callStack = append(append([]string(nil), fr.callStack...), fr.fn.String())
 	sub.lock = fr.lock
+	sub.parent = fr
 	for i, p := range callee.Params {
 		a := args[i]
 		if a.L != nil {
@@ -376,6 +380,10 @@ func (fr *frame) applyContract(con *Contract, callee *ssa.Function, sig *types.S
 	}
 	for _, cl := range con.clauses("ensures") {
 		vc.assume(implies(fr.guard, post.evalBool(cl.Expr)))
+	}
+	for _, cl := range con.clauses("ghost_ensures") {
+		vc.assume(implies(fr.guard, post.evalBool(cl.Expr)))
+		vc.note("ghost effect assumed at call sites (link between ghost state and memory is trusted): " + cname + ": " + clauseLabel(cl))
 	}
 	fr.crashInvariant("after " + cname, pos)
 	return res
@@ -883,6 +891,22 @@ func (vc *VC) modsOfBlocks(blocks []*ssa.BasicBlock, pats map[string]bool, seen 
 }
 
 func (vc *VC) modsOfAddr(a ssa.Value, pats map[string]bool) {
+	// stores into a local variable also hit its private components
+	base := a
+	for {
+		if fa, ok := base.(*ssa.FieldAddr); ok {
+			base = fa.X
+			continue
+		}
+		if ia, ok := base.(*ssa.IndexAddr); ok {
+			base = ia.X
+			continue
+		}
+		break
+	}
+	if al, ok := base.(*ssa.Alloc); ok {
+		pats["L~!"+al.Name()] = true
+	}
 	switch p := a.(type) {
 	case *ssa.FieldAddr:
 		st := p.X.Type().Underlying().(*types.Pointer).Elem()
@@ -1057,7 +1081,7 @@ func (fr *frame) lockCheck(p Val, write bool, pos string) {
 	if l.Elem {
 		what = fr.vc.elemComp(l.BaseT)
 	} else if isStruct(l.BaseT) && len(l.Path) > 0 {
-		what = fr.vc.fieldComp(l.BaseT, l.Path[0].Field)
+		what = fr.vc.locFieldComp(l, l.Path[0].Field)
 		if fr.lock.exemptFieldComps[what] {
 			return
 		}
